@@ -7,12 +7,16 @@
            2 ExtraDebugInfo); per key: susp = server delay, outc = bit mask "server has the file of kind i";
            log = file keys 3*key+kind fetched from the server (sorted); results S<file key> / E.
    mode 3: mode 1 plus drops: a pick 100+u drops task u if it is waiting for a lock.
-   mode 4: the tasks are the children of one futures_util::future::join_all; last field = parent polls.
-   output: OK;log;midreq/midproc/middone;results;req/proc;stats;rounds
+   mode 4: the tasks are the children of one futures_util::future::join_all; last field = parent polls
+           (a non-empty schedule = group sizes of a nested join_all: same poll order, ignored here).
+   mode 5: multi-threaded tokio runtime; mode 6: join_all polled by hand, possibly > 30 children (FuturesUnordered).
+           The schedule is not under the case's control: the model runs round-robin and only the
+           schedule-independent fields are printed (sorted log; c12_quiescent_observables_schedule_independent).
+   output: OK;log;midreq/midproc/middone;results;req/proc;stats;rounds;obs   (obs: the tasks' own checks, always -)
      log = keys joined by '.' ('-' if empty); results = tasks joined by '|', lookups by '.',
      each S<key> (symbols of that key) or E; stats = leaf:loaded:corrupt joined by ',' *)
-let leaf_of_cf = [| 0; 1; 1; 2; 3 |]
-let nleaf = 4
+let leaf_of_cf = [| 0; 1; 1; 2; 3; 4; 5 |]
+let nleaf = 6
 let outcome_of_int = function
   | 0 -> OOk | 1 -> ONotFound | 2 -> OMissing | 3 -> OLoad | 4 -> OParse
   | _ -> failwith "bad outcome"
@@ -57,6 +61,13 @@ let () =
           add (pres (o_results o)); add ";";
           add (pn (o_req o) ^ "/" ^ pn (o_proc o)); add ";";
           add (pstats (o_stats o)); add ";"; add (pn (o_rounds o))
+        end else if mode = 5 || mode = 6 then begin
+          let o = run_case ts scripts (nat_of_int nleaf) [] in
+          if o_hung o then add "HUNG;" else add "OK;";
+          add (join "." string_of_int (List.sort compare (List.map int_of_nat (o_log o)))); add ";-;";
+          add (pres (o_results o)); add ";";
+          add (pn (o_req o) ^ "/" ^ pn (o_proc o)); add ";";
+          add (pstats (o_stats o)); add ";0"
         end else if mode = 2 then begin
           (* file mode: per file key 3*key+kind: lookup(module, kind) exists, fetch delay, server has it *)
           let fscripts = List.concat (List.map (fun (su, mask, cf, ci, df, di) ->
@@ -86,6 +97,7 @@ let () =
           add (pstats (w_stats o)); add ";";
           add (if mode = 4 then join "." pn (w_trace o) else "0")
         end;
+        add ";-";
         print_endline (Buffer.contents b)
       end
     done
